@@ -6,7 +6,7 @@ use crate::forms::*;
 use crate::gen::*;
 use serde_json::{json, Value};
 
-pub fn generate(prop: &str, tier: &str, seed: u64, out: &str, shards: usize) {
+pub fn generate(prop: &str, tier: &str, seed: u64, out: &str, shards: usize, histories: Option<&str>) {
     let thorough = tier == "thorough";
     let mut sh = Shards::new(out, shards);
     let asm = Asm::new();
@@ -19,6 +19,15 @@ pub fn generate(prop: &str, tier: &str, seed: u64, out: &str, shards: usize) {
         "C02" => gen_c02(&asm, &mut mach, &mut rng, &mut sh, thorough),
         "C03" => gen_c03(&asm, &mut mach, &mut rng, &mut sh, thorough),
         "C06" => gen_c06(&asm, &mut mach, &mut rng, &mut sh, thorough),
+        "C04" => crate::checks2::gen_c04(&asm, &mut mach, &mut rng, &mut sh, thorough),
+        "C05" => {
+            crate::checks2::gen_c05(&asm, &mut mach, &mut rng, &mut sh, thorough);
+            if let Some(h) = histories {
+                crate::checks2::replay_c05(&asm, &mut mach, &mut sh, h);
+            }
+        }
+        "C07" => crate::checks2::gen_c07(&asm, &mut mach, &mut rng, &mut sh, thorough),
+        "C09" => crate::checks2::gen_c09(&asm, &mut mach, &mut rng, &mut sh, thorough),
         _ => {
             eprintln!("no generator for {}", prop);
             std::process::exit(2);
